@@ -361,7 +361,13 @@ pub fn main(opts: &Opts) {
     // frame-level anomalies in place of the garbage: every frame is a well-formed reply, but it is a
     // second reply for another outstanding request, a reply for no request at all, or request k's own
     // reply sent twice — every k × every arrival order (exhaustive)
-    for kind in ["@dup-other", "@unknown-id", "@dup-self"] {
+    for kind in [
+        "@dup-other",
+        "@unknown-id",
+        "@dup-self",
+        "@dup-other-different",
+        "@dup-other-truncated",
+    ] {
         for k in 0..3usize {
             for order in [
                 [0usize, 1, 2],
@@ -410,6 +416,18 @@ pub fn main(opts: &Opts) {
                                     "999999",
                                     &[reply::Child::Data("<z/>")],
                                 )),
+                                // a second message bearing another request's id, with other content:
+                                // whoever reads it may fail, the first (genuine) reply must still
+                                // reach its owner
+                                b"@dup-other-different" => peer.deliver(reply::doc_xml(
+                                    &ids[other],
+                                    &[reply::Child::Data("<z/>")],
+                                )),
+                                b"@dup-other-truncated" => {
+                                    let full = reply::doc_xml(&ids[other], &[reply::Child::Data("<z/>")]);
+                                    let cut = full.find("<data").unwrap_or(full.len() / 2) + 5;
+                                    peer.deliver(format!("{}]]>]]>", &full[..cut]));
+                                }
                                 _ => {
                                     peer.deliver(reply::doc_xml(
                                         &ids[k],
@@ -469,6 +487,28 @@ pub fn main(opts: &Opts) {
             verdict = "violation panic-multi".into();
         } else if outs.iter().any(|o| o == "timeout") {
             verdict = "violation hang-multi".into();
+        } else if garbage.starts_with(b"@dup-other-") {
+            // two different messages bear the id of request `other`: the first to arrive is its reply
+            // (a truncated one makes it fail), the second makes whoever reads it fail; the third
+            // request is either that reader or gets exactly its own reply
+            let other = (k + 1) % 3;
+            let third = 3 - k - other;
+            let genuine = |i: usize| format!("data:{}", ["<a/>", "<b/>", "<c/>"][i]);
+            let pos = |x: usize| order.iter().position(|o| *o == x).unwrap_or(0);
+            let dup_first = pos(*k) < pos(other);
+            let want_other: Vec<String> = if !dup_first {
+                vec![genuine(other)]
+            } else if garbage.as_slice() == b"@dup-other-different" {
+                vec!["data:<z/>".to_string()]
+            } else {
+                vec!["err".to_string()]
+            };
+            if !want_other.contains(&outs[other]) {
+                verdict = "violation first-reply-for-an-id-not-delivered-to-its-owner".into();
+            } else if outs[third] != genuine(third) && outs[third] != "err" {
+                verdict = "violation wrong-reply-delivered".into();
+            }
+            sink.count("multi.two-messages-one-id");
         } else {
             // requests other than k: at most one of them (the one that happened to read the garbage) may fail;
             // every other one must get exactly its own reply
